@@ -1,8 +1,10 @@
 package main
 
 import (
+	"context"
 	"fmt"
 	"os"
+	"time"
 
 	"github.com/open2b/scriggo"
 )
@@ -14,7 +16,17 @@ func main() {
 		fmt.Println("BUILD ERROR:", err)
 		return
 	}
-	err = p.Run(nil)
+	var ro *scriggo.RunOptions
+	var cancel context.CancelFunc
+	if os.Getenv("PROBE_CANCEL") != "" {
+		ro = &scriggo.RunOptions{}
+		ro.Context, cancel = context.WithCancel(context.Background())
+	}
+	err = p.Run(ro)
+	if cancel != nil {
+		cancel()
+		time.Sleep(300 * time.Millisecond)
+	}
 	fmt.Printf("RUN: %T %v\n", err, err)
 	if pe, ok := err.(*scriggo.PanicError); ok {
 		fmt.Printf("String=%q Path=%q Pos=%v\n", pe.String(), pe.Path(), pe.Position())
